@@ -25,6 +25,24 @@ fn generate(s: &mut Session) {
         let st = random_sets(s);
         submit_solve(s, &p, &st, "c01");
     }
+    // objective scaled by 10^U(-8,8) relative to the constraints (the cost scaling c of the
+    // equilibration hits its clip bounds), equilibration on and off
+    for k in 0..s.budget(500, 8000) {
+        let p = plant_cost_scaled(s, k % 4 == 0);
+        let mut st = random_sets(s);
+        st.eq = k % 5 != 0;
+        s.count("family:cost-scaled-qp");
+        submit_solve(s, &p, &st, "c01");
+        if k % 10 == 0 {
+            submit_live_components(s, &p, &st);
+        }
+    }
+    // re-solve histories on one solver object
+    for k in 0..s.budget(100, 3000) {
+        let h = plant_history(s, k % 4 == 0);
+        let st = random_sets(s);
+        submit_history(s, &h, &st, "c01");
+    }
     // the modelled functions on constructed inputs (correspondence + their own oracles)
     gen_components(s, 3.0);
 }
